@@ -24,14 +24,18 @@ type ExtPlan struct {
 
 type HelloPlan struct {
 	VersMin, VersMax uint16
-	Ciphers          []uint16
-	Compression      []uint8
-	Exts             []ExtPlan
-	NoExtensions     bool
+	// LegacyVers, if not 0, replaces the legacy_version field of the ClientHello (only drawn for
+	// hellos without a supported_versions extension: the server then negotiates TLS 1.2 for
+	// any value >= 0x0303, and the field is what JA3 and JA4 report as the version)
+	LegacyVers   uint16
+	Ciphers      []uint16
+	Compression  []uint8
+	Exts         []ExtPlan
+	NoExtensions bool
 }
 
 func (h *HelloPlan) String() string {
-	s := fmt.Sprintf("vers=%04x-%04x ciphers=%04x exts=[", h.VersMin, h.VersMax, h.Ciphers)
+	s := fmt.Sprintf("vers=%04x-%04x legacy=%04x ciphers=%04x exts=[", h.VersMin, h.VersMax, h.LegacyVers, h.Ciphers)
 	for i, e := range h.Exts {
 		if i > 0 {
 			s += " "
